@@ -34,6 +34,7 @@ type lpara struct {
 	Level int    // h: 1..9; li: 0-based nesting
 	Via   string // h: builtin, custom, inherited, inherited2, name, outline, cyclic; p: "", quote, boldsmall, bigbold, cycplain
 	NumID int    // li: which list (1..3)
+	Fam   string // h via family, or a cell paragraph: the style of the document's style family it uses
 	Style string // filled by the writer: the style id / name used
 }
 
@@ -67,7 +68,153 @@ type ldoc struct {
 	Numbering bool
 	Meta      bool
 	NoOutline bool // the built-in heading styles are written without an outline level
+	Fam       *family
 	ntok      int
+}
+
+// ---- the style family ---------------------------------------------------------------
+//
+// A family is a small forest of paragraph styles of one document: one or two root
+// heading styles (built-in, custom with an outline level, or localized built-in) and
+// two to five custom styles derived from them along basedOn / parent-style-name,
+// one to three derivations deep. A derived style either inherits its parent's level
+// or OVERRIDES it with an outline level of its own; further styles derived from it
+// inherit the overridden level. The level of a style is a function of its definition
+// chain alone (own level if it has one, else the parent's) - the paragraphs of the
+// document use the family's styles in arbitrary order and repetition (parent before
+// child, child before parent, interleaved, inside table cells), and whatever a
+// reader resolved earlier must not change the level.
+
+type fstyle struct {
+	ID     string // docx style id / odt style name
+	Parent string // "" for a root
+	Via    string // roots: builtin, custom, name; derived: family
+	Own    int    // derived: 0 = inherits, 1..9 = its own level; roots: the level
+	Level  int    // what the definition chain says
+	Depth  int    // 0 = root
+}
+
+type family struct{ Styles []fstyle } // roots first, parents before children
+
+func rootStyleID(format, via string, L int) string {
+	if format == "docx" {
+		switch via {
+		case "builtin":
+			return styleID("Heading", L)
+		case "custom":
+			return styleID("Kapitel9", L)
+		}
+		return styleID("berschrift", L)
+	}
+	switch via {
+	case "builtin":
+		return fmt.Sprintf("Heading_20_%d", L)
+	case "custom":
+		return fmt.Sprintf("Kapitel_20_%d", L)
+	}
+	return fmt.Sprintf("Heading%d", L)
+}
+
+func genFamily(r *hx.Rng, format string) *family {
+	f := &family{}
+	for i := r.Range(1, 2); i > 0; i-- {
+		via := hx.Pick(r, []string{"builtin", "builtin", "custom", "name"})
+		L := r.Range(1, 9)
+		id := rootStyleID(format, via, L)
+		if f.get(id) == nil {
+			f.Styles = append(f.Styles, fstyle{ID: id, Via: via, Own: L, Level: L})
+		}
+	}
+	for i, n := 0, r.Range(2, 5); i < n; i++ {
+		var cands []fstyle
+		for _, s := range f.Styles {
+			if s.Depth < 3 {
+				cands = append(cands, s)
+			}
+		}
+		par := hx.Pick(r, cands)
+		if len(f.Styles) > 2 && r.Bool() {
+			par = cands[len(cands)-1] // favour deep chains
+		}
+		s := fstyle{Parent: par.ID, Via: "family", Level: par.Level, Depth: par.Depth + 1}
+		if r.Chance(2, 3) {
+			s.Own = r.Range(1, 9) // overrides (now and then with the very level it would inherit)
+			s.Level = s.Own
+		}
+		// ids carry no digit and no level: the level is in the definition only
+		if format == "docx" {
+			s.ID = "Fam" + string(rune('A'+i))
+		} else {
+			s.ID = "Fam_20_" + string(rune('A'+i))
+		}
+		f.Styles = append(f.Styles, s)
+	}
+	return f
+}
+
+func (f *family) get(id string) *fstyle {
+	if f == nil {
+		return nil
+	}
+	for i := range f.Styles {
+		if f.Styles[i].ID == id {
+			return &f.Styles[i]
+		}
+	}
+	return nil
+}
+
+// ancestors lists the style ids above id, nearest first.
+func (f *family) ancestors(id string) []string {
+	var out []string
+	for s := f.get(id); s != nil && s.Parent != ""; s = f.get(s.Parent) {
+		out = append(out, s.Parent)
+	}
+	return out
+}
+
+// overrides: the style has a level of its own that differs from the one it would inherit.
+func (f *family) overrides(id string) bool {
+	s := f.get(id)
+	if s == nil || s.Parent == "" || s.Own == 0 {
+		return false
+	}
+	return f.get(s.Parent).Level != s.Own
+}
+
+// closeNeed adds the family styles the needed ones are derived from.
+func (f *family) closeNeed(need map[string]bool) {
+	if f == nil {
+		return
+	}
+	for _, s := range f.Styles {
+		if need[s.ID] {
+			for _, a := range f.ancestors(s.ID) {
+				need[a] = true
+			}
+		}
+	}
+}
+
+func (f *family) canon() string {
+	if f == nil {
+		return "-"
+	}
+	var b strings.Builder
+	for _, s := range f.Styles {
+		fmt.Fprintf(&b, "%s<%s:%d=%d,", s.ID, s.Parent, s.Own, s.Level)
+	}
+	return b.String()
+}
+
+// genFamilyHeading: a heading that uses one of the family's styles (a root or a derived one).
+func (d *ldoc) genFamilyHeading(r *hx.Rng) *lpara {
+	s := hx.Pick(r, d.Fam.Styles)
+	p := &lpara{Kind: "h", Runs: d.genRuns(r, 0), Level: s.Level, Via: s.Via}
+	if s.Via == "family" {
+		p.Fam = s.ID
+	}
+	return p
 }
 
 func (d *ldoc) tok(r *hx.Rng) string {
@@ -228,6 +375,9 @@ func (d *ldoc) genTable(r *hx.Rng, depth int) *ltable {
 				if !(np > 1 && r.Chance(1, 6)) { // sometimes an empty paragraph between others
 					cp.Runs = d.genCellRuns(r)
 				}
+				if d.Fam != nil && r.Chance(1, 3) {
+					cp.Fam = hx.Pick(r, d.Fam.Styles).ID // a cell paragraph in a style of the family
+				}
 				cell.Paras = append(cell.Paras, cp)
 			}
 			if depth == 0 && r.Chance(1, 8) {
@@ -268,8 +418,17 @@ func genDoc(r *hx.Rng, format string) *ldoc {
 		}
 	}
 	n := r.Range(1, 9)
+	if d.Styles && r.Chance(1, 3) {
+		d.Fam = genFamily(r, format)
+		n = r.Range(3, 10)
+	}
 	lastLevel := -1
 	for len(d.Blocks) < n {
+		if d.Fam != nil && r.Chance(2, 5) {
+			d.Blocks = append(d.Blocks, lblock{P: d.genFamilyHeading(r)})
+			lastLevel = -1
+			continue
+		}
 		switch k := r.Intn(10); {
 		case k < 4:
 			d.Blocks = append(d.Blocks, lblock{P: d.genPara(r)})
@@ -434,10 +593,10 @@ func (t *ltable) tokens() []ptok {
 
 func (d *ldoc) canon() string {
 	var b strings.Builder
-	fmt.Fprintf(&b, "%s s%v n%v h%v f%v|", d.Format, d.Styles, d.Numbering, d.Header, d.Footer)
+	fmt.Fprintf(&b, "%s s%v n%v h%v f%v F%s|", d.Format, d.Styles, d.Numbering, d.Header, d.Footer, d.Fam.canon())
 	for _, bl := range d.Blocks {
 		if bl.P != nil {
-			fmt.Fprintf(&b, "%s/%d/%s/%d/%q;", bl.P.Kind, bl.P.Level, bl.P.Via, bl.P.NumID, bl.P.wantText())
+			fmt.Fprintf(&b, "%s/%d/%s%s/%d/%q;", bl.P.Kind, bl.P.Level, bl.P.Via, bl.P.Fam, bl.P.NumID, bl.P.wantText())
 			for _, ru := range bl.P.Runs {
 				b.WriteString(ru.Wrap + ",")
 			}
@@ -446,7 +605,11 @@ func (d *ldoc) canon() string {
 			for a := 0; a < bl.T.R; a++ {
 				for c := 0; c < bl.T.C; c++ {
 					if cell := bl.T.Cells[[2]int{a, c}]; cell != nil {
-						fmt.Fprintf(&b, "%d.%d.%d.%v.%q,", cell.RS, cell.CS, len(cell.Paras), cell.Nested != nil, cell.wantText())
+						fmt.Fprintf(&b, "%d.%d.%d.%v.%q", cell.RS, cell.CS, len(cell.Paras), cell.Nested != nil, cell.wantText())
+						for i := range cell.Paras {
+							b.WriteString("~" + cell.Paras[i].Fam)
+						}
+						b.WriteString(",")
 					}
 				}
 			}
